@@ -32,6 +32,8 @@ def project_probes(ctx, project):
             ctx.probe("two_patterns_one_line", f["shared_lines"])
         if f.get("overlap"):
             ctx.probe("overlapping_bare_patterns")
+        if f.get("twin_context"):
+            ctx.probe("same_context_other_pattern_in_another_file")
         if f.get("bare"):
             ctx.probe("bare_version_pattern")
         if f.get("globbed"):
